@@ -105,6 +105,10 @@ def run(ctx) -> Result:
     import redisrun
     res.merge(redisrun.part(ctx, "C15", ['fifo', 'fifo', 'mixed'], crash=0, race=0))
     res.assumptions = list(getattr(res, "assumptions", []) or []) + redisrun.ASSUMPTIONS
+    # RabbitMQ broker: sessions on the real RabbitMessageBroker/_RabbitConsumer (in-process fake AMQP server) vs Rabbit.S
+    import rabbitrun
+    res.merge(rabbitrun.part(ctx, "C15", ['fifo', 'fifo', 'mixed'], specials=[]))
+    res.assumptions = list(res.assumptions) + rabbitrun.ASSUMPTIONS
     return res
 
 
